@@ -622,6 +622,14 @@ impl World {
         out
     }
 
+    /// What a reader task does: put a datagram read from uplink `idx`'s socket on the channel
+    /// without processing it (it is handled by the next arm's `drain_packet_queue`).
+    pub fn enqueue_uplink(&self, env: &mut Env, idx: usize, bytes: &[u8]) {
+        if let Some(c) = self.connections.get(idx) {
+            let _ = env.packet_tx.send(UplinkPacket { conn_id: c.conn_id, bytes: SmallVec::from_slice_copy(bytes) });
+        }
+    }
+
     /// Arm 2: a datagram read from uplink `idx`'s socket.
     pub fn arm_uplink(&mut self, env: &mut Env, idx: usize, bytes: &[u8]) -> Out {
         let mut out = Out::default();
